@@ -147,6 +147,7 @@ def poly_spec(labels, form, spin, quad=False, tiny=False, boolexpr=False, min_te
         # after the constraints every term that carries an ancilla is removed again: the ancilla counter then exceeds
         # what the remaining terms show
         "strip": gen.pick((False, 3), (True, 1)) if form in PC and not plain else st.just(False),
+        "symcon": gen.pick((False, 4), (True, 1)) if form in PC and not plain and max_cons >= 3 else st.just(False),
         # a term that is added and cancelled again: a single label (a stale variable if it is new) or, for the
         # non-quadratic types, a key over the first labels of higher degree than anything else in the model (a stale
         # *degree*: the recorded degree then exceeds the true one)
@@ -217,11 +218,11 @@ def mk(qv, p):
     if form == "dict":
         return {k: v for k, v in gen.terms_dict(p["terms"]).items() if v != 0}
     M = lib(gen.build, qv, form, p["terms"], what="build")
-    for rel, cterms, lam, log_trick in p["cons"]:
+    for (rel, cterms, lam, log_trick), P in zip(p["cons"], con_polys(p)):
         kw = {"lam": lam}
         if rel != "eq":
             kw["log_trick"] = bool(log_trick)
-        lib(getattr(M, "add_constraint_%s_zero" % rel), gen.terms_dict(cterms), what="build_constraint_" + rel, **kw)
+        lib(getattr(M, "add_constraint_%s_zero" % rel), P, what="build_constraint_" + rel, **kw)
     if p.get("strip"):
         def strip():
             for k in [k for k in dict.keys(M) if any(isinstance(l, str) and l.startswith("__a") for l in k)]:
@@ -245,10 +246,27 @@ def mk(qv, p):
     return M
 
 
+def con_polys(p):
+    """The constraint polynomials of a model spec as they are handed to the library.  With ``symcon`` the first
+    recorded-only constraint (lam = 0: remembered for is_solution_valid, no penalty) carries a sympy symbol in one
+    coefficient - it has to survive copies and the info round trip like any other."""
+    out, done = [], False
+    for rel, cterms, lam, log_trick in p["cons"]:
+        P = gen.terms_dict(cterms)
+        if p.get("symcon") and lam == 0 and not done:
+            k0 = next((k for k in P if k), None)
+            if k0 is not None:
+                import sympy
+                P[k0] = P[k0] * sympy.Symbol("s_c19")
+                done = True
+        out.append(P)
+    return out
+
+
 def expected_constraints(p, spin):
     out = {}
-    for rel, cterms, lam, log_trick in p["cons"]:
-        out.setdefault(rel, []).append(ref.canon(gen.terms_dict(cterms), spin))
+    for (rel, cterms, lam, log_trick), P in zip(p["cons"], con_polys(p)):
+        out.setdefault(rel, []).append(ref.canon(P, spin))
     return out
 
 
